@@ -23,12 +23,18 @@ import c06_num as N6
 TOL = 1e-9
 
 
-def rel_err(x, ref):
+def rel_err(x, ref, mag=None):
+    """error relative to the natural magnitude of the result (norm of the reference, or the magnitude of the operands
+    where the reference may cancel); NO absolute floor"""
     x = np.asarray(x)
     ref = np.asarray(ref)
     if x.shape != ref.shape:
         return float("inf")
-    return float(np.linalg.norm(x - ref) / max(1.0, np.linalg.norm(ref)))
+    m = float(np.linalg.norm(ref)) if mag is None else float(mag)
+    d = float(np.linalg.norm(x - ref))
+    if m == 0.0:
+        return 0.0 if d == 0.0 else float("inf")
+    return d / m
 
 
 class Obj:
@@ -56,7 +62,10 @@ from renormalizer.mps.lib import compressed_sum, _sum
 from renormalizer.mps import gs
 from renormalizer.utils import EvolveConfig, EvolveMethod, CompressConfig, CompressCriteria, OptimizeConfig
 import c06_num as N6
-def relerr(x, ref): return float(np.linalg.norm(np.asarray(x) - np.asarray(ref)) / max(1.0, np.linalg.norm(ref)))
+def relerr(x, ref, mag=None):
+    m = float(np.linalg.norm(ref)) if mag is None else float(mag)
+    d = float(np.linalg.norm(np.asarray(x) - np.asarray(ref)))
+    return (0.0 if d == 0.0 else float("inf")) if m == 0.0 else d / m
 def cplx(mp, seed):
     r = np.random.RandomState(seed); mp = mp.to_complex()
     for i in range(len(mp)):
@@ -231,7 +240,7 @@ def run_case(case_seed, maxsite, fails, stats):
             try:
                 mp2 = after(o.mp, how) if how else o.mp
                 d = (G.dense_state(mp2) if o.kind == "state" else G.dense_op(mp2)) * (getattr(mp2, "coeff", 1) if o.kind != "op" else 1)
-                e = rel_err(d, o.ref)
+                e = rel_err(d, o.ref, getattr(o, "mag", None))
                 bad = not (e <= TOL)
                 det = {"op": opname, "after": how or "none", "rel_err": e}
             except Exception as ex:
@@ -240,8 +249,8 @@ def run_case(case_seed, maxsite, fails, stats):
             if bad:
                 kind = "dense" if not how else "dense-after-canonicalise"
                 key = "%s:%s" % (opname, kind)
-                chk = ("ref = %s\ntry:\n    d = dense(after(%s, %r))\n    e = relerr(d, ref)\nexcept Exception as ex:\n    print('raised', repr(ex)); sys.exit(1)\n"
-                       "print('relative error', e); sys.exit(1 if not e <= 1e-9 else 0)") % (o.refexpr, o.expr, how)
+                chk = ("ref = %s\ntry:\n    d = dense(after(%s, %r))\n    e = relerr(d, ref, MAG)\nexcept Exception as ex:\n    print('raised', repr(ex)); sys.exit(1)\n"
+                       "print('relative error', e); sys.exit(1 if not e <= 1e-9 else 0)").replace("MAG", repr(getattr(o, "mag", None))) % (o.refexpr, o.expr, how)
                 report(key, det, chk)
                 return False
         return True
@@ -353,7 +362,7 @@ def run_case(case_seed, maxsite, fails, stats):
                         return
                 stats["checks"] = stats.get("checks", 0) + 1
                 dv = y.dot(y)
-                if not abs(dv - np.sum((ry / y.coeff) * (ry / y.coeff))) <= 1e-9 * max(1.0, abs(dv)):
+                if not abs(dv - np.sum((ry / y.coeff) * (ry / y.coeff))) <= 1e-9 * float(np.linalg.norm(ry / y.coeff)) ** 2:
                     report("evolved-operand:dot", {"impl": repr(dv)}, "sys.exit(1)")
                     return
                 pool.append(yo)
@@ -386,7 +395,7 @@ def run_case(case_seed, maxsite, fails, stats):
                 else:
                     mp = compressed_sum([t.mp for t in terms], batchsize=bs)
                     lines.append("%s = compressed_sum(%s, batchsize=%d); r_%s = %s" % (name, lst, bs, name, " + ".join("r_" + t.expr for t in terms)))
-                o = Obj(mp, ref, "state", name); o.q = tuple(int(x) for x in q0); o.refexpr = "r_" + name
+                o = Obj(mp, ref, "state", name); o.q = tuple(int(x) for x in q0); o.refexpr = "r_" + name; o.mag = float(sum(np.linalg.norm(t.ref) for t in terms))
                 stats.setdefault("csum_n", {})
                 stats["csum_n"][str(n)] = stats["csum_n"].get(str(n), 0) + 1
                 if not check(o, "compressed_sum", ("", "L")):
@@ -445,7 +454,7 @@ def run_case(case_seed, maxsite, fails, stats):
                 if np.linalg.norm(ref) < 1e-6 * (np.linalg.norm(a.ref) + np.linalg.norm(b.ref)):
                     lines.pop()
                     continue
-                o = Obj(mp, ref, "state", name); o.q = a.q; o.refexpr = "r_" + name
+                o = Obj(mp, ref, "state", name); o.q = a.q; o.refexpr = "r_" + name; o.mag = float(np.linalg.norm(a.ref) + np.linalg.norm(b.ref))
                 pool.append(o)
                 ok = check(o, opk)
                 # prefactor folding must leave the operands' represented vectors unchanged
@@ -492,7 +501,7 @@ def run_case(case_seed, maxsite, fails, stats):
                     G.lossless(a.mp)
                     mp = O.mp.contract(a.mp)
                     lines.append("G.lossless(%s); %s = %s.contract(%s); r_%s = r_%s @ r_%s" % (a.expr, name, O.expr, a.expr, name, O.expr, a.expr))
-                o = Obj(mp, ref, "state", name); o.q = tuple(x + y for x, y in zip(a.q, O.q)); o.refexpr = "r_" + name
+                o = Obj(mp, ref, "state", name); o.q = tuple(x + y for x, y in zip(a.q, O.q)); o.refexpr = "r_" + name; o.mag = float(np.linalg.norm(O.ref) * np.linalg.norm(a.ref))
                 pool.append(o)
                 if any(O.q):
                     stats["nontrivial"] = stats.get("nontrivial", 0) + 1
@@ -506,7 +515,7 @@ def run_case(case_seed, maxsite, fails, stats):
                 if np.linalg.norm(ref) < 1e-9:
                     continue
                 lines.append("%s = %s.apply(%s); r_%s = r_%s @ r_%s" % (name, A.expr, B.expr, name, A.expr, B.expr))
-                o = Obj(mp, ref, "op", name); o.q = tuple(x + y for x, y in zip(A.q, B.q)); o.refexpr = "r_" + name
+                o = Obj(mp, ref, "op", name); o.q = tuple(x + y for x, y in zip(A.q, B.q)); o.refexpr = "r_" + name; o.mag = float(np.linalg.norm(A.ref) * np.linalg.norm(B.ref))
                 pool.append(o)
                 if not check(o, opk):
                     return
@@ -522,7 +531,7 @@ def run_case(case_seed, maxsite, fails, stats):
                     continue
                 mp = A.mp.add(B.mp)
                 lines.append("%s = %s.add(%s); r_%s = r_%s + r_%s" % (name, A.expr, B.expr, name, A.expr, B.expr))
-                o = Obj(mp, ref, "op", name); o.q = A.q; o.refexpr = "r_" + name
+                o = Obj(mp, ref, "op", name); o.q = A.q; o.refexpr = "r_" + name; o.mag = float(np.linalg.norm(A.ref) + np.linalg.norm(B.ref))
                 pool.append(o)
                 if A.mp.qnidx != B.mp.qnidx:
                     stats["nontrivial"] = stats.get("nontrivial", 0) + 1
@@ -551,19 +560,19 @@ def run_case(case_seed, maxsite, fails, stats):
                     val = a.mp.dot(b.mp)
                     exp = np.sum((a.ref / ca) * (b.ref / cb))
                     expr = "val = %s.dot(%s); exp = np.sum((r_%s / getattr(%s, 'coeff', 1)) * (r_%s / getattr(%s, 'coeff', 1)))" % (a.expr, b.expr, a.expr, a.expr, b.expr, b.expr)
-                    scale_ = max(1.0, np.linalg.norm(a.ref / ca) * np.linalg.norm(b.ref / cb))
+                    scale_ = float(np.linalg.norm(a.ref / ca) * np.linalg.norm(b.ref / cb))
                 elif opk == "norm":
                     val = a.mp.norm
                     exp = np.linalg.norm(a.ref)
                     expr = "val = %s.norm; exp = np.linalg.norm(r_%s)" % (a.expr, a.expr)
-                    scale_ = max(1.0, exp)
+                    scale_ = float(exp)
                 else:
                     if a is b:
                         continue
                     val = a.mp.distance(b.mp)
                     exp = np.linalg.norm(a.ref - b.ref)
                     expr = "val = %s.distance(%s); exp = np.linalg.norm(r_%s - r_%s)" % (a.expr, b.expr, a.expr, b.expr)
-                    scale_ = max(1.0, np.linalg.norm(a.ref) + np.linalg.norm(b.ref))
+                    scale_ = float(np.linalg.norm(a.ref) + np.linalg.norm(b.ref))
                     # distance is sqrt of a difference of O(scale^2) numbers: absolute accuracy sqrt(eps)*scale
                 stats["checks"] = stats.get("checks", 0) + 1
                 tol = TOL if "distance" not in opk else 1e-6
@@ -572,7 +581,7 @@ def run_case(case_seed, maxsite, fails, stats):
                     if opk == "distance":
                         eqc = "-equal-prefactors" if np.allclose(ca, cb) and not np.allclose(ca, 1) else ""
                     report("%s:value%s" % (opk, eqc), {"op": opk, "impl": repr(val), "expected": repr(exp), "coeffs": [repr(ca), repr(cb)]},
-                           expr + "\nprint('impl', val, 'expected', exp); sys.exit(1 if not abs(val - exp) <= %g * max(1.0, abs(exp)) + %g else 0)" % (10 * tol, tol * scale_))
+                           expr + "\nprint('impl', val, 'expected', exp); sys.exit(1 if not abs(val - exp) <= %r else 0)" % (10 * tol * scale_,))
                     return
                 if opk == "distance":
                     # the operands may have been folded in place
@@ -606,7 +615,7 @@ def run_case(case_seed, maxsite, fails, stats):
                     if np.linalg.norm(ref) < 1e-9:
                         lines.pop()
                         continue
-                    o = Obj(mp, ref, "dm", name); o.q = q; o.refexpr = "r_" + name
+                    o = Obj(mp, ref, "dm", name); o.q = q; o.refexpr = "r_" + name; o.mag = float(np.linalg.norm(O.ref) * np.linalg.norm(d.ref))
                     pool.append(o)
                     if not check(o, nm):
                         return
@@ -620,7 +629,7 @@ def run_case(case_seed, maxsite, fails, stats):
                         continue
                     mp = d.mp.add(e.mp)
                     lines.append("%s = %s.add(%s); r_%s = r_%s + r_%s" % (name, d.expr, e.expr, name, d.expr, e.expr))
-                    o = Obj(mp, ref, "dm", name); o.q = d.q; o.refexpr = "r_" + name
+                    o = Obj(mp, ref, "dm", name); o.q = d.q; o.refexpr = "r_" + name; o.mag = float(np.linalg.norm(d.ref) + np.linalg.norm(e.ref))
                     pool.append(o)
                     if not check(o, "mpdm-add"):
                         return
@@ -629,6 +638,194 @@ def run_case(case_seed, maxsite, fails, stats):
             tb = traceback.format_exc()
             report("%s:exception" % opk, {"op": opk, "exception": repr(ex), "tb": tb[-800:]},
                    "print('the operation above raised in the original run: %s'); sys.exit(1)" % repr(ex).replace("'", ""))
+            return
+
+
+# ----------------------------------------------------------------------------------------------- SCALE stream
+def rand_z(rng):
+    """a scalar of magnitude 1e-30 .. 1e30: real, purely imaginary, or complex with a small / comparable / large phase part"""
+    mag = 10.0 ** rng.choice([-30, -20, -12, -9, -6, -3, -1, 0, 0, 1, 3, 6, 9, 12, 20, 30]) * rng.uniform(1.0, 9.9)
+    kind = rng.choice(["real", "imag", "complex", "complex", "complex"])
+    sgn = rng.choice([1, -1])
+    if kind == "real":
+        return float(sgn * mag), kind
+    if kind == "imag":
+        return complex(0.0, sgn * mag), kind
+    ratio = 10.0 ** rng.choice([-6, -3, -1, 0, 0, 1, 3, 6])          # |Im| / |Re|
+    re, im = (mag, mag * ratio) if ratio <= 1 else (mag / ratio, mag)
+    return complex(sgn * re, rng.choice([1, -1]) * im), kind
+
+
+def run_scale_case(case_seed, fails, stats):
+    """every arithmetic operation with scalars and operand norms spanning 1e-30 .. 1e30, compared with the dense
+    reference RELATIVE to the magnitudes involved (no absolute floor), plus homogeneity op(c a) = c op(a)"""
+    rng = random.Random(case_seed)
+    np.random.seed(case_seed % (2 ** 31))
+    nsite = rng.choice([2, 3, 3, 4])
+    ncomp = rng.choice([1, 1, 2])
+    mseed = rng.randrange(10 ** 9)
+    model, sites = G.build_model(random.Random(mseed), nsite, ncomp, False)
+    lines = ["np.random.seed(%d)" % (case_seed % (2 ** 31)), "model, sites = G.build_model(random.Random(%d), %d, %d, False)" % (mseed, nsite, ncomp)]
+    q0, _ = G.random_sector(rng, sites, "any")
+    q0 = [int(x) for x in q0]
+
+    def state(name):
+        s2 = rng.randrange(2 ** 31)
+        np.random.seed(s2)
+        try:
+            mp = Mps.random(model, np.array(q0), rng.randint(3, 6), percent=1.0)
+        except (FloatingPointError, ValueError):
+            return None
+        lines.append("np.random.seed(%d); %s = Mps.random(model, np.array(%r), %d, percent=1.0)" % (s2, name, q0, max(mp.bond_dims)))
+        lines[-1] = lines[-1]  # m_max recorded below
+        return mp, s2
+
+    a = state("a")
+    b = state("b")
+    if a is None or b is None:
+        return
+    # rebuild deterministic creation lines (m_max must be the one used)
+    lines = lines[:2]
+    objs = {}
+    for nm in ("a", "b"):
+        s2 = rng.randrange(2 ** 31)
+        mm = rng.randint(3, 6)
+        np.random.seed(s2)
+        try:
+            mp = Mps.random(model, np.array(q0), mm, percent=1.0)
+        except (FloatingPointError, ValueError):
+            return
+        lines.append("np.random.seed(%d); %s = Mps.random(model, np.array(%r), %d, percent=1.0)" % (s2, nm, q0, mm))
+        if rng.random() < 0.4:
+            cs = rng.randrange(2 ** 31)
+            mp = cplx(mp, cs)
+            lines.append("%s = cplx(%s, %d)" % (nm, nm, cs))
+        # operand norm anywhere in 1e-30 .. 1e30: multiply one site tensor directly (no package arithmetic involved)
+        f = 10.0 ** rng.choice([-30, -15, -8, -3, 0, 0, 3, 8, 15, 30])
+        k = rng.randrange(nsite)
+        mp[k] = np.asarray(mp[k].array) * f
+        lines.append("%s[%d] = np.asarray(%s[%d].array) * %r" % (nm, k, nm, k, f))
+        objs[nm] = mp
+    a, b = objs["a"], objs["b"]
+    tseed = rng.randrange(10 ** 9)
+    terms, ch, desc = G.random_terms(random.Random(tseed), sites, False, rng.random() < 0.3, want_charge=[0] * ncomp)
+    if not terms or np.linalg.norm(G.dense_of_terms(sites, desc)) < 1e-12:
+        return
+    O = Mpo(model, terms)
+    lines.append("_t = G.random_terms(random.Random(%d), sites, False, %r, want_charge=%r); O = Mpo(model, _t[0])" % (tseed, bool(np.iscomplexobj(G.dense_of_terms(sites, desc))) or False, [0] * ncomp))
+    lines[-1] = "_t = G.random_terms(random.Random(%d), sites, False, ALLOWC, want_charge=%r); O = Mpo(model, _t[0])" % (tseed, [0] * ncomp)
+    stats["scale_cases"] = stats.get("scale_cases", 0) + 1
+
+    def D(x):
+        return (G.dense_state(x) if x[0].ndim == 3 else G.dense_op(x)) * (getattr(x, "coeff", 1) if not isinstance(x, Mpo) or isinstance(x, MpDm) else 1)
+
+    ra, rb, RO = D(a), D(b), D(O)
+    na, nb, nO = float(np.linalg.norm(ra)), float(np.linalg.norm(rb)), float(np.linalg.norm(RO))
+
+    def fail(key, detail, code):
+        fails.append({"key": key, "detail": detail, "repro": PRELUDE + "\n".join(lines).replace("ALLOWC", repr(allowc)) + "\n" + code + "\n", "case_seed": case_seed})
+
+    allowc = None
+    # recover the allow_complex flag actually used (random_terms consumed it from rng above): regenerate deterministically
+    for flag in (False, True):
+        t2, c2, d2 = G.random_terms(random.Random(tseed), sites, False, flag, want_charge=[0] * ncomp)
+        if d2 == desc:
+            allowc = flag
+            break
+    if allowc is None:
+        return
+
+    def vec_ok(x, ref, mag, what, detail, code):
+        stats["checks"] = stats.get("checks", 0) + 1
+        stats.setdefault("scale_ops", {})
+        stats["scale_ops"][what] = stats["scale_ops"].get(what, 0) + 1
+        try:
+            e = rel_err(D(x), ref, mag)
+        except Exception as ex:
+            e = float("inf"); detail = dict(detail, exception=repr(ex))
+        if not e <= TOL:
+            fail("scale-stream:%s" % what, dict(detail, rel_err=e, magnitude=mag), code + "\ne = relerr(dense(res), ref, %r)\nprint('relative error', e); sys.exit(1 if not e <= 1e-9 else 0)" % mag)
+            return False
+        return True
+
+    def num_ok(val, exp, mag, what, detail, code):
+        stats["checks"] = stats.get("checks", 0) + 1
+        stats.setdefault("scale_ops", {})
+        stats["scale_ops"][what] = stats["scale_ops"].get(what, 0) + 1
+        if not abs(val - exp) <= 1e-9 * mag:
+            fail("scale-stream:%s" % what, dict(detail, impl=repr(val), expected=repr(exp), magnitude=mag),
+                 code + "\nprint('impl', val, 'expected', exp); sys.exit(1 if not abs(val - exp) <= 1e-9 * %r else 0)" % mag)
+            return False
+        return True
+
+    for _ in range(4):
+        z, zk = rand_z(rng)
+        det = {"z": repr(z), "z_kind": zk, "norm_a": na, "norm_b": nb, "norm_O": nO}
+        try:
+            # scale, *, reversed *, "division" and negation (scale by 1/z, -1: the class has no / or unary minus)
+            if not vec_ok(a.scale(z), z * ra, abs(z) * na, "scale", det, "res = a.scale(%r); ref = %r * dense(a)" % (z, z)): return
+            zz = complex(z) if isinstance(z, complex) else float(z)
+            if not vec_ok(a * zz, z * ra, abs(z) * na, "mul", det, "res = a * %r; ref = %r * dense(a)" % (zz, z)): return
+            if not vec_ok(zz * a, z * ra, abs(z) * na, "rmul", det, "res = %r * a; ref = %r * dense(a)" % (zz, z)): return
+            if not vec_ok(a.scale(1 / z), ra / z, na / abs(z), "div", det, "res = a.scale(1 / %r); ref = dense(a) / %r" % (z, z)): return
+            if not vec_ok(O.scale(z), z * RO, abs(z) * nO, "opscale", det, "res = O.scale(%r); ref = %r * dense(O)" % (z, z)): return
+            # sub / add with prefactors
+            a2 = a.copy(); a2.coeff = z
+            rb2 = rb
+            if not vec_ok(a.scale(z) - b, z * ra - rb, abs(z) * na + nb, "sub", det, "res = a.scale(%r) - b; ref = %r * dense(a) - dense(b)" % (z, z)): return
+            same = bool(np.allclose(a2.coeff, b.coeff)) and a2.coeff != b.coeff
+            r_add = a2.add(b.copy())
+            stats["checks"] = stats.get("checks", 0) + 1
+            e = rel_err(D(r_add), z * ra + rb, abs(z) * na + nb)
+            if not e <= TOL:
+                key = "add:nearly-equal-prefactors" if same else "scale-stream:add-prefactor"
+                fail(key, dict(det, rel_err=e, note="np.allclose(coeff_a, coeff_b) is True although the prefactors differ" if same else ""),
+                     "a2 = a.copy(); a2.coeff = %r; res = a2.add(b.copy()); ref = %r * dense(a) + dense(b)\ne = relerr(dense(res), ref, %r)\nprint('relative error', e); sys.exit(1 if not e <= 1e-9 else 0)" % (z, z, abs(z) * na + nb))
+                if not same:
+                    return
+            # apply / contract and homogeneity  O (z a) = z (O a)
+            az = a.scale(z)
+            if not np.linalg.norm(RO @ ra) > 1e-6 * nO * na:
+                continue                  # O annihilates a: the zero vector cannot be scaled / canonicalised by the code
+            r1 = O.apply(az)
+            if not vec_ok(r1, z * (RO @ ra), abs(z) * nO * na, "apply", det, "res = O.apply(a.scale(%r)); ref = %r * (dense(O) @ dense(a))" % (z, z)): return
+            r2 = O.apply(a).scale(z)
+            if not vec_ok(r2, D(r1), abs(z) * nO * na, "homogeneity-apply", det, "res = O.apply(a).scale(%r); ref = dense(O.apply(a.scale(%r)))" % (z, z)): return
+            if True:
+                G.lossless(az)
+                r3 = O.contract(az)
+                if not vec_ok(r3, z * (RO @ ra), abs(z) * nO * na, "contract", det, "az = a.scale(%r); G.lossless(az); res = O.contract(az); ref = %r * (dense(O) @ dense(a))" % (z, z)): return
+            # dot / distance / norm and their homogeneity
+            if not num_ok(az.dot(b), z * np.sum(ra * rb), abs(z) * na * nb, "dot", det, "val = a.scale(%r).dot(b); exp = %r * np.sum(dense(a) * dense(b))" % (z, z)): return
+            if not num_ok(az.norm, abs(z) * na, abs(z) * na, "norm", det, "val = a.scale(%r).norm; exp = abs(%r) * np.linalg.norm(dense(a))" % (z, z)): return
+            bz = b.scale(z)
+            dtrue = abs(z) * float(np.linalg.norm(ra - rb))
+            if dtrue > 1e-3 * abs(z) * (na + nb):
+                stats["checks"] = stats.get("checks", 0) + 1
+                dv = az.distance(bz)
+                if not abs(dv - dtrue) <= 1e-6 * abs(z) * (na + nb):
+                    fail("scale-stream:distance", dict(det, impl=repr(dv), expected=dtrue),
+                         "val = a.scale(%r).distance(b.scale(%r)); exp = abs(%r) * np.linalg.norm(dense(a) - dense(b))\nprint('impl', val, 'expected', exp); sys.exit(1 if not abs(val - exp) <= 1e-6 * %r else 0)" % (z, z, z, abs(z) * (na + nb)))
+                    return
+            # normalize variants: the represented vector is unchanged up to the documented factor
+            for kindn, fac in (("mps_only", None), ("mps_and_coeff", None), ("mps_norm_to_coeff", 1.0)):
+                x = az.copy(); x.coeff = z if kindn != "mps_only" else 1
+                before = D(x)
+                x.normalize(kindn)
+                tn = float(np.linalg.norm(G.dense_state(x)))
+                stats["checks"] = stats.get("checks", 0) + 1
+                okn = abs(tn - 1.0) <= 1e-9
+                if kindn == "mps_norm_to_coeff":
+                    okn = okn and rel_err(D(x), before) <= TOL
+                elif kindn == "mps_and_coeff":
+                    okn = okn and abs(abs(x.coeff) - 1.0) <= 1e-9
+                if not okn:
+                    fail("scale-stream:normalize", dict(det, kind=kindn, tensor_norm_after=tn, coeff_after=repr(x.coeff)),
+                         "x = a.scale(%r).copy(); x.coeff = %r; x.normalize(%r); tn = float(np.linalg.norm(G.dense_state(x)))\nprint('norm of the tensor part after normalize:', tn, 'coeff', x.coeff); sys.exit(1 if not abs(tn - 1.0) <= 1e-9 else 0)"
+                         % (z, (z if kindn != "mps_only" else 1), kindn))
+                    return
+        except Exception as ex:
+            fail("scale-stream:exception", dict(det, exception=repr(ex), tb=traceback.format_exc()[-600:]), "print('an operation of the scale stream raised in the original run'); sys.exit(1)")
             return
 
 
@@ -641,6 +838,9 @@ def main():
     for k in range(ncases):
         before = len(fails)
         try:
+            if k % 4 == 3:
+                run_scale_case(seed * 100003 + k, fails, stats)
+                continue
             run_case(seed * 100003 + k, maxsite, fails, stats)
         except Exception as ex:
             fails.append({"key": "generator:exception", "detail": {"exception": repr(ex), "tb": traceback.format_exc()[-1200:]}, "repro": None,
